@@ -32,6 +32,7 @@ c_AllValueClasses == {"int_three", "float_five", "str_tag", "int_small", "int_ne
    "wrap_Int64", "wrap_SingleFloat", "wrap_String", "wrap_Boolean"}
 c_SeqsProps == {<<R>>, <<G1>>, <<A>>, <<R, G1, A>>}
 c_FewValueClasses == {"int_three", "float_int_valued", "float_five", "int_small", "int_2p31", "float", "str_multibyte", "datetime64_us", "wrap_Uint16"}
+c_SeqsRefuse == {<<A>>, <<C, A>>, <<G1>>, <<B, G1, R>>}
 c_SeqsA == {<<A>>}
 c_BigClasses == {"np_float64", "np_int16", "list_str"}
 ====
